@@ -36,6 +36,8 @@ pub enum CertKind {
     Extended(u8),
     /// valid certificate with one byte replaced
     ByteSet(u16, u8),
+    /// valid certificate with the byte at this absolute offset replaced (replay of the exhaustive part)
+    ByteAt(usize, u8),
 }
 
 #[derive(Clone, Debug, Serialize, Deserialize, PartialEq, Eq, Hash)]
@@ -77,6 +79,13 @@ fn build_cert(c: &VerifierCase) -> Vec<u8> {
             let mut d = adv::self_signed(&v, &names, Validity::Valid);
             let i = idx(*pos, d.len());
             d[i] = *val;
+            d
+        }
+        CertKind::ByteAt(off, val) => {
+            let mut d = adv::self_signed(&v, &names, Validity::Valid);
+            if *off < d.len() {
+                d[*off] = *val;
+            }
             d
         }
     }
@@ -122,7 +131,7 @@ pub fn verifier_case(c: &VerifierCase, obs: &mut Obs) -> Result<(), Fail> {
     if matches!(c.kind, CertKind::SelfSigned | CertKind::ExtraName) && !c.with_intermediate {
         vensure!(accepted, "c01:rejects-valid", "a valid self-signed Ed25519 certificate for the network name was rejected by verifier {}", c.verifier % 3);
     }
-    obs.label(format!("{}:{}", match &c.kind { CertKind::ByteSet(..) => "ByteSet".to_string(), CertKind::Truncated(_) => "Truncated".into(), CertKind::Extended(_) => "Extended".into(), k => format!("{k:?}") }, if accepted { "accepted" } else { "rejected" }));
+    obs.label(format!("{}:{}", match &c.kind { CertKind::ByteSet(..) | CertKind::ByteAt(..) => "ByteSet".to_string(), CertKind::Truncated(_) => "Truncated".into(), CertKind::Extended(_) => "Extended".into(), k => format!("{k:?}") }, if accepted { "accepted" } else { "rejected" }));
     if !matches!(c.kind, CertKind::SelfSigned) {
         obs.nontrivial(c);
     }
